@@ -54,7 +54,8 @@ theorem new_eq_new_then_assign_fixed (limit : Nat) (ty : Ty) (init : Init)
            | .error e => .error e)
        | .error e => .error e) := by
   have halloc : allocPtr ty (some init) = allocPtr ty none := by
-    unfold allocPtr
+    rw [allocPtr_eq_ref, allocPtr_eq_ref]
+    unfold allocPtrRef
     cases ty with
     | prim p => rfl
     | arr item isz len => rfl
@@ -89,7 +90,7 @@ theorem varsize_toplevel_cdata_like_assignment (limit size : Nat) (fs : Fields) 
   have hlim : ¬ size > limit := by omega
   have hw' : write (List.replicate size (0 : UInt8)) 0 (List.take size data) = .ok (List.take size data) := hw
   cases hv : fs.anyVar <;>
-    simp [newp, allocPtr, Ty.size?, Ty.isCharPrim, Init.isCData, hv, hlim, convert, hd, zeros, hw']
+    simp [newp, allocPtr_eq_ref, allocPtrRef, Ty.size?, Ty.isCharPrim, Init.isCData, hv, hlim, convert, hd, zeros, hw']
 
 example : newp 1000 true (.agg 4 (.cons ⟨1, 0, none, false⟩ (.prim (.int 4 true))
       (.cons ⟨2, 4, none, false⟩ (.arr (.prim (.int 2 true)) 2 none) .nil)))
@@ -112,7 +113,7 @@ theorem new_array_eq_new_then_assign (limit : Nat) (item : Ty) (isz l : Nat) (in
            | .ok m => .ok ⟨m, o0.length⟩
            | .error e => .error e)
        | .error e => .error e) := by
-  simp only [newp, Bool.false_eq_true, if_false, allocArr]
+  simp only [newp, Bool.false_eq_true, if_false, allocArr_eq_ref, allocArrRef]
   split
   · rfl
   · rfl
@@ -171,7 +172,8 @@ theorem untouched_bytes_zero (limit : Nat) (isPtr : Bool) (ty : Ty) (init : Init
           | some i' =>
             -- the initialiser left is the original one
             have hi' : i' = init := by
-              unfold allocArr at ha
+              rw [allocArr_eq_ref] at ha
+              unfold allocArrRef at ha
               cases len with
               | some l => simp only [Except.ok.injEq, Prod.mk.injEq, Option.some.injEq] at ha; exact ha.2.2.symm
               | none =>
@@ -228,9 +230,9 @@ theorem new_without_init_is_zero (limit : Nat) (isPtr : Bool) (ty : Ty) (o : Own
     | agg size fs => cases h
     | arr item isz len =>
       cases len with
-      | none => simp [allocArr] at h
+      | none => simp [allocArr_eq_ref, allocArrRef] at h
       | some l =>
-        simp only [allocArr] at h
+        simp only [allocArr_eq_ref, allocArrRef] at h
         split at h
         · cases h
         · cases h; simp only [zeros_length]
@@ -250,7 +252,8 @@ theorem varsize_stores_fit_partial (ty : Ty) (init : Init) (datasize : Nat) (len
     (hwf : ty.wf = true) (hnv : ty.noVarItems = true)
     (ha : allocPtr ty (some init) = .ok (datasize, length)) :
     ∀ op ∈ plan 0 ty .plain init, op.fitsIn datasize = true := by
-  unfold allocPtr at ha
+  rw [allocPtr_eq_ref] at ha
+  unfold allocPtrRef at ha
   cases hs : ty.size? with
   | none => rw [hs] at ha; cases ha
   | some sz0 =>
@@ -332,7 +335,8 @@ theorem varsize_fits_partial (limit : Nat) (ty : Ty) (init : Option Init)
     newp limit true ty init ≠ .error .oob := by
   have halloc_err : ∀ i e, allocPtr ty i = .error e → e ≠ .oob := by
     intro i e ha
-    unfold allocPtr at ha
+    rw [allocPtr_eq_ref] at ha
+    unfold allocPtrRef at ha
     cases hs : ty.size? with
     | none => rw [hs] at ha; cases ha; decide
     | some sz0 =>
@@ -472,8 +476,8 @@ theorem sizeof_reports_allocated (limit size : Nat) (fs : Fields) (init : Option
         · cases h
         · cases h; exact ⟨datasize, rfl, zeros_length _⟩
   obtain ⟨datasize, ha, hl⟩ := hsz
-  simp only [allocPtr, Ty.size?, Ty.isCharPrim, Bool.false_eq_true, if_false] at ha
-  simp only [sizeofDeref]
+  simp only [allocPtr_eq_ref, allocPtrRef, Ty.size?, Ty.isCharPrim, Bool.false_eq_true, if_false] at ha
+  simp only [sizeofDeref_eq_ref, sizeofDerefRef]
   split at ha
   · rename_i hv
     simp only [hv, if_true]
@@ -530,15 +534,15 @@ theorem sizeof_array_reports_allocated (limit : Nat) (item : Ty) (isz : Nat) (le
             exact ⟨by rw [convert_length hc, zeros_length], rfl⟩
       cases len with
       | some l =>
-        simp only [allocArr, Except.ok.injEq, Prod.mk.injEq] at ha
-        simp only [sizeofArr]
+        simp only [allocArr_eq_ref, allocArrRef, Except.ok.injEq, Prod.mk.injEq] at ha
+        simp only [sizeofArr_eq_ref, sizeofArrRef]
         rw [hdata.1, ← ha.1, Nat.mul_comm]
       | none =>
         cases init with
-        | none => simp [allocArr] at ha
+        | none => simp [allocArr_eq_ref, allocArrRef] at ha
         | some i =>
           obtain ⟨n, hl, hs⟩ := allocArr_open_size ha
-          simp only [sizeofArr, hdata.2, hl, Option.map_some]
+          simp only [sizeofArr_eq_ref, sizeofArrRef, hdata.2, hl, Option.map_some]
           rw [hdata.1, hs]
 
 example : (match newp 1000 false (.arr (.prim (.int 4 true)) 4 none) (some (.int 3)) with
@@ -586,13 +590,13 @@ theorem too_many_initialisers_rejected (limit size : Nat) (fs : Fields) (items :
 theorem too_many_array_items_rejected (m : Mem) (off : Nat) (item : Ty) (isz l : Nat) (items : Inits)
     (h : l < items.length) :
     convert m off (.arr item isz (some l)) .plain (.seq items) = .error .index := by
-  have : tooMany (some l) items.length = true := by simp [tooMany, h]
+  have : tooMany (some l) items.length = true := by simp [tooMany_eq_ref, tooManyRef, h]
   simp only [convert, this, if_true]
 
 theorem too_long_bytes_rejected (m : Mem) (off : Nat) (item : Ty) (isz l : Nat) (b : List UInt8)
     (hb : item.isByteLike = true) (h : l < b.length) :
     convert m off (.arr item isz (some l)) .plain (.bytes b) = .error .index := by
-  have : tooMany (some l) b.length = true := by simp [tooMany, h]
+  have : tooMany (some l) b.length = true := by simp [tooMany_eq_ref, tooManyRef, h]
   simp only [convert, hb, this, if_true]
 
 -- struct { int a; char b; } with three initialisers; int[2] with three; char[3] with b"abcd"
